@@ -666,7 +666,9 @@ def rules(tier):
             # C20-da: terminal files written as utf-8 while config.ini records the training encoding - values come back longer than their label
             ('C20.R13', _shared_rule('c07', 'r2_encoding_agreement')),
             # mutation sweep: the length filter guarded by min_length AND max_length
-            ('C20.R14', _shared_rule('c20', 'r14_filter_guards'))]
+            ('C20.R14', _shared_rule('c20', 'r14_filter_guards')),
+            # C20-eb: fall-back to raw_grammar.txt when the edited grammar.txt is empty
+            ('C20.R15', _shared_rule('plumbing', 'who_may'))]
 
 
 META = {
